@@ -47,7 +47,7 @@ table, TFR / EXG and PSH / PUL postbytes), NOT from /repo/code6809.c and without
 (V) tests/t_full09 (golden program; assembled for CPU 6809, its 6309 blocks off): every machine statement whose
     mnemonic the table knows must be explained from the byte side by TLC (Isa6809_Trace: decode, same opcode, re-encode,
     published length).  A rejection is reported as SPEC-DRIFT (first of all a slip in the table).
-Bounds: quick ~26,000 leaves in 4 parallel single-worker TLC runs (thorough ~93,000 in 4), every leaf assembled twice.
+Bounds: quick 27,390 leaves in 4 parallel single-worker TLC runs (thorough 103,878 in 4), every leaf assembled twice.
 Not covered: 6309; flag-name operands of ANDCC / ORCC / CWAI, `SWI 2`, `#mask` / ALL / D in register lists, DPR / CCR
 spellings, `n,PC`, lower case, symbols and forward references (pass-dependent size choice), `[<n]`, empty PSHS list,
 non-canonical PCR postbytes (register bits set); contexts of more than one statement.
@@ -55,8 +55,17 @@ Finding (known_findings/C14-isa6809.json, proposed_fixes/C14-6809-indirect-autoi
     `LDA [,-X]` -> A6 92 (every indexed instruction, all four registers): postbytes the 6809 does not define (on the 6309
     $90 is [,W]).  Spec drift on the unchanged tree (summarised per class): offset / PCR distance 127 gets the 16-bit
     form and `<127,R` is refused (code6809.c MayShort: `Arg < 127`).
-Mutations of code6809.c tried (scratch copies, all build and pass ctest 201/201, `VERIF_REPO=.. ./check C14 --tier
-quick`): see the end of the C14 docstring section "isa6809".
+Mutations of code6809.c tried (scratch copies /tmp/g09-m1..4, all build and pass ctest 201/201; the phase run on them, exit 1):
+  m1 DecodeTFR_TFM_EXG: size-mixing test only when the destination is 16 bit -> 96 violations (`EXG S,A` -> 1E 48 ...)
+  m2 DecodeALU: only the $10 prefix counted into the PCR base -> 1752 violations (page-3 `CMPS n,PCR` / `CMPU` off by one)
+  m3 DecodeAdr: high byte of a 16-bit PCR offset only written when non-zero (stale AdrVals[1] of the PREVIOUS statement)
+     -> 873 violations, none of them reproducible alone: 138 directly behind their context statement (H), 463 behind the
+     statement in front of them in the batch, 272 only inside the batch program
+  m4 DecodeRel: short branch limit 127 -> 128 -> 76 violations (`BRA <pc+130>` -> 20 80)
+  (5-bit edge 15 -> 16, direct-page test against page 0, stale high byte of every 16-bit offset: killed by the repo's own
+  tests/t_full09 already, dropped.)  With proposed_fixes/C14-6809-indirect-autoinc1.diff: ctest 201/201, no finding.
+Binding of (V): truncating an indexed LDA, flipping an opcode bit of LBNE, postbyte $91 -> $90 make Isa6809_Trace reject.
+Binding of the model: postbyte of D,R 11 -> 10 in Isa6809.tla makes TLC report RoundTrip violated (Isa6809_MC.cfg).
 """
 import os
 import re
